@@ -944,15 +944,14 @@ func forOperand(v LValue) (LNumber, bool) {
 }
 
 func luaModulo(lhs, rhs LNumber) LNumber {
+	// Lua 5.1 defines a % b as a - floor(a/b)*b (luai_nummod), which differs from a
+	// sign-corrected fmod whenever a/b rounds to an integer (1 % 0.1 is 0), for huge
+	// quotients and for an infinite divisor (nan)
 	flhs := float64(lhs)
 	frhs := float64(rhs)
-	v := math.Mod(flhs, frhs)
-	if frhs > 0 && v < 0 || frhs < 0 && v > 0 {
-		v += frhs
-	}
+	v := flhs - math.Floor(flhs/frhs)*frhs
 	if v == 0 {
-		// a - floor(a/b)*b is +0 when the division is exact (math.Mod keeps the dividend's sign)
-		v = 0
+		v = 0 // never -0
 	}
 	return LNumber(v)
 }
